@@ -1,28 +1,364 @@
-//! Read-only observers run at every product state (exports, debug output, inspect, ...).
-//! Filled in per property; each failure becomes a witness trace judged by Trace.tla.
+//! Read-only observers run at every product state: XML / DOT exports (C18), Debug / Display / v_print /
+//! inspect (C20).  Each output is parsed back into facts and compared with the specification state the
+//! object is paired with; a difference becomes a witness trace (the call path plus one observer event
+//! carrying the parsed facts) that Trace.tla judges.
 
 use crate::exec::{HCall, World};
 use crate::model::Abs;
-use crate::product::{Opts, SpecEv, Summary};
+use crate::product::{record_trace, Opts, SpecEv, Summary};
+use serde_json::{json, Value};
+use std::collections::HashMap;
 use std::fs::File;
+use std::io::Write;
 
-pub fn at_state(
-    _w: &World,
-    _s: &Abs,
-    _path: &[HCall],
-    _o: &Opts,
-    _sum: &mut Summary,
-    _wfile: &mut Option<File>,
-    _tid: &mut usize,
-) {
+thread_local! {
+    /// canonical (present, sorted edges, data) -> first text printed, per export kind
+    static FIRST_TEXT: std::cell::RefCell<HashMap<(String, String), String>> = std::cell::RefCell::new(HashMap::new());
 }
 
-pub fn inspect_event(
-    _w: &World,
-    _ev: &SpecEv,
-    _path: &[HCall],
-    _sum: &mut Summary,
-    _wfile: &mut Option<File>,
-    _tid: &mut usize,
-) {
+#[derive(Debug, Clone, PartialEq)]
+pub struct Facts {
+    pub nodes: Vec<usize>,
+    pub edges: Vec<(usize, String, usize)>,
+    pub data: Vec<(usize, String)>,
+    pub ok: bool,
+    pub note: String,
+}
+
+impl Facts {
+    fn bad(note: &str) -> Facts {
+        Facts { nodes: vec![], edges: vec![], data: vec![], ok: false, note: note.to_string() }
+    }
+    pub fn to_json(&self) -> Value {
+        json!({"nodes": self.nodes, "edges": self.edges.iter().map(|(v, a, t)| json!([v, a, t])).collect::<Vec<_>>(),
+               "data": self.data.iter().map(|(v, d)| json!([v, d])).collect::<Vec<_>>(), "wellformed": self.ok, "note": self.note})
+    }
+}
+
+/// what the specification state says the facts are (nodes ascending; edges sorted by (vertex, label))
+pub fn expected(s: &Abs) -> Facts {
+    let mut edges = vec![];
+    let mut data = vec![];
+    for v in &s.present {
+        for (a, t) in &s.edges[*v] {
+            edges.push((*v, a.clone(), *t));
+        }
+        if let Some(d) = &s.val[*v] {
+            data.push((*v, d.clone()));
+        }
+    }
+    Facts { nodes: s.present.clone(), edges, data, ok: true, note: String::new() }
+}
+
+fn same_facts(a: &Facts, b: &Facts) -> bool {
+    let mut ea = a.edges.clone();
+    let mut eb = b.edges.clone();
+    ea.sort();
+    eb.sort();
+    a.ok && b.ok && a.nodes == b.nodes && ea == eb && a.data == b.data
+}
+
+pub fn parse_xml(xml: &str) -> Facts {
+    let Ok(pkg) = sxd_document::parser::parse(xml) else { return Facts::bad("not well-formed XML") };
+    let doc = pkg.as_document();
+    let Some(root) = doc.root().children().into_iter().filter_map(|c| c.element()).next() else { return Facts::bad("no root") };
+    if root.name().local_part() != "sodg" {
+        return Facts::bad("root is not <sodg>");
+    }
+    let mut f = Facts { nodes: vec![], edges: vec![], data: vec![], ok: true, note: String::new() };
+    for c in root.children() {
+        let Some(v) = c.element() else { continue };
+        if v.name().local_part() != "v" {
+            return Facts::bad("unexpected element under <sodg>");
+        }
+        let Some(id) = v.attribute_value("id").and_then(|s| s.parse::<usize>().ok()) else { return Facts::bad("v without id") };
+        f.nodes.push(id);
+        for k in v.children() {
+            let Some(e) = k.element() else { continue };
+            match e.name().local_part() {
+                "e" => {
+                    let a = e.attribute_value("a").unwrap_or("").to_string();
+                    let Some(t) = e.attribute_value("to").and_then(|s| s.parse::<usize>().ok()) else { return Facts::bad("e without to") };
+                    f.edges.push((id, a, t));
+                }
+                "data" => {
+                    let text: String = e.children().into_iter().filter_map(|x| x.text()).map(|t| t.text().to_string()).collect();
+                    let t = text.trim();
+                    // the export prints bytes separated by blanks; "--" stands for the empty byte string
+                    let hex = if t == "  " || t.is_empty() || t == "--" { "--".to_string() } else { t.replace(' ', "-") };
+                    f.data.push((id, hex));
+                }
+                _ => return Facts::bad("unexpected element under <v>"),
+            }
+        }
+    }
+    f
+}
+
+pub fn parse_dot(dot: &str) -> Facts {
+    let mut f = Facts { nodes: vec![], edges: vec![], data: vec![], ok: true, note: String::new() };
+    for line in dot.lines() {
+        let l = line.trim();
+        if l.is_empty() || l.starts_with("/*") || l.starts_with("digraph") || l.starts_with("node [") || l.starts_with("edge [") || l == "}" {
+            continue;
+        }
+        if let Some(rest) = l.strip_prefix('v') {
+            if let Some(pos) = rest.find("[shape=circle,label=\"ν") {
+                let Ok(id) = rest[..pos].parse::<usize>() else { return Facts::bad("bad node id") };
+                let after = &rest[pos + "[shape=circle,label=\"ν".len()..];
+                let lab: String = after.chars().take_while(|c| c.is_ascii_digit()).collect();
+                if lab != id.to_string() {
+                    return Facts::bad("node label does not match its id");
+                }
+                f.nodes.push(id);
+                if let Some(p) = l.find("/* ") {
+                    let d = l[p + 3..].trim_end_matches("*/").trim();
+                    f.data.push((id, d.to_string()));
+                    if !l.contains("color=\"#f96900\"") {
+                        return Facts::bad("data comment without the data colour");
+                    }
+                } else if l.contains("color=\"#f96900\"") {
+                    return Facts::bad("data colour without data");
+                }
+                continue;
+            }
+            if let Some(pos) = rest.find(" -> v") {
+                let Ok(from) = rest[..pos].parse::<usize>() else { return Facts::bad("bad edge source") };
+                let after = &rest[pos + 5..];
+                let to: String = after.chars().take_while(|c| c.is_ascii_digit()).collect();
+                let Ok(to) = to.parse::<usize>() else { return Facts::bad("bad edge target") };
+                let Some(lp) = after.find("[label=\"") else { return Facts::bad("edge without label") };
+                let lab: String = after[lp + 8..].chars().take_while(|c| *c != '"').collect();
+                f.edges.push((from, lab, to));
+                continue;
+            }
+        }
+        return Facts::bad(&format!("unparsable DOT line: {l}"));
+    }
+    f
+}
+
+/// Debug / Display: `ν{v} -> ⟦{attrs}⟧` entries (attrs: "\n\t{label} ➞ ν{t}" and the data), then `b{n}: {...}` lines
+pub fn parse_debug(text: &str) -> Facts {
+    let mut f = Facts { nodes: vec![], edges: vec![], data: vec![], ok: true, note: String::new() };
+    let mut rest = text;
+    while let Some(start) = rest.find('ν') {
+        // entries start at line start with "ν<digits> -> ⟦"
+        let at_line_start = start == 0 || rest[..start].ends_with('\n');
+        let tail = &rest[start + 'ν'.len_utf8()..];
+        let id: String = tail.chars().take_while(|c| c.is_ascii_digit()).collect();
+        if !at_line_start || id.is_empty() || !tail[id.len()..].starts_with(" -> ⟦") {
+            rest = tail;
+            continue;
+        }
+        let v: usize = id.parse().unwrap();
+        let body_start = id.len() + " -> ⟦".len();
+        let Some(end) = tail[body_start..].find('⟧') else { return Facts::bad("unterminated vertex entry") };
+        let body = &tail[body_start..body_start + end];
+        f.nodes.push(v);
+        for part in body.split(", ") {
+            if part.is_empty() {
+                continue;
+            }
+            if let Some(e) = part.strip_prefix("\n\t") {
+                let Some(p) = e.find(" ➞ ν") else { return Facts::bad("bad edge in Debug") };
+                let Ok(t) = e[p + " ➞ ν".len()..].parse::<usize>() else { return Facts::bad("bad target in Debug") };
+                f.edges.push((v, e[..p].to_string(), t));
+            } else {
+                f.data.push((v, part.to_string()));
+            }
+        }
+        rest = &tail[body_start + end..];
+    }
+    f
+}
+
+/// v_print: `ν{v}⟦Δ, a, b⟧`
+pub fn parse_vprint(text: &str, v: usize) -> Option<(bool, Vec<String>)> {
+    let body = text.strip_prefix(&format!("ν{v}⟦"))?.strip_suffix('⟧')?;
+    let mut parts: Vec<&str> = if body.is_empty() { vec![] } else { body.split(", ").collect() };
+    let marker = parts.first() == Some(&"Δ");
+    if marker {
+        parts.remove(0);
+    }
+    Some((marker, parts.into_iter().filter(|p| !p.is_empty()).map(|s| s.to_string()).collect()))
+}
+
+/// inspect: first line `ν{v}`, then one line per edge, indented two blanks per level: `.{label} ➞ ν{t}[…]`
+pub fn parse_inspect(text: &str, v: usize) -> Option<Vec<(usize, String, usize)>> {
+    let mut lines = text.lines();
+    if lines.next()? != format!("ν{v}") {
+        return None;
+    }
+    let mut stack: Vec<usize> = vec![v];
+    let mut edges = vec![];
+    for line in lines {
+        let indent = line.chars().take_while(|c| *c == ' ').count();
+        if indent < 2 || indent % 2 != 0 {
+            return None;
+        }
+        let depth = indent / 2;
+        let l = line[indent..].strip_prefix('.')?;
+        let p = l.find(" ➞ ν")?;
+        let label = l[..p].to_string();
+        let t: String = l[p + " ➞ ν".len()..].chars().take_while(|c| c.is_ascii_digit()).collect();
+        let t: usize = t.parse().ok()?;
+        if depth > stack.len() {
+            return None;
+        }
+        stack.truncate(depth);
+        let from = *stack.last()?;
+        edges.push((from, label, t));
+        stack.push(t);
+    }
+    Some(edges)
+}
+
+fn witness(kind: &str, ev: Value, w: &World, path: &[HCall], o: &Opts, sum: &mut Summary, wfile: &mut Option<File>, tid: &mut usize) {
+    sum.observer_failures += 1;
+    *sum.by_sig.entry(format!("observer:{kind}")).or_default() += 1;
+    let seen = sum.witnesses.iter().filter(|x| x["sig"] == json!(format!("observer:{kind}"))).count();
+    if seen >= o.max_witness_per_sig || sum.witnesses.len() >= o.max_witnesses {
+        return;
+    }
+    let id = *tid;
+    *tid += 1;
+    let mut e = ev;
+    e["t"] = json!(id);
+    e["h"] = json!(0);
+    if let Some(f) = wfile.as_mut() {
+        record_trace(f, id, o, &w.labels, path);
+        writeln!(f, "{e}").unwrap();
+    }
+    sum.witnesses.push(json!({"t": id, "sig": format!("observer:{kind}"), "n": o.n, "cap": o.cap,
+        "calls": path.iter().map(|c| c.to_json()).collect::<Vec<_>>(), "observer_event": e}));
+}
+
+fn progress(o: &Opts, what: &str, path: &[HCall]) {
+    // where we are, for the parent to name the call if this process dies (stack overflow) or hangs
+    let p = o.scratch.join(format!("progress-{}.json", std::process::id()));
+    let _ = std::fs::write(p, json!({"observer": what, "n": o.n, "cap": o.cap, "calls": path.iter().map(|c| c.to_json()).collect::<Vec<_>>()}).to_string());
+}
+
+pub fn at_state(w: &World, s: &Abs, path: &[HCall], o: &Opts, sum: &mut Summary, wfile: &mut Option<File>, tid: &mut usize) {
+    let exp = expected(s);
+    let has = |k: &str| o.observers.iter().any(|x| x == k);
+    let key = format!("{:?}|{:?}|{:?}", exp.nodes, { let mut e = exp.edges.clone(); e.sort(); e }, exp.data);
+    let mut same_text = |kind: &str, text: &str| -> bool {
+        FIRST_TEXT.with(|m| {
+            let mut m = m.borrow_mut();
+            match m.get(&(kind.to_string(), key.clone())) {
+                Some(t) => t == text,
+                None => {
+                    m.insert((kind.to_string(), key.clone()), text.to_string());
+                    true
+                }
+            }
+        })
+    };
+    if has("xml") {
+        *sum.observer_checks.entry("xml".into()).or_default() += 1;
+        let (facts, text) = match w.g(0).to_xml() {
+            Ok(Ok(x)) => (parse_xml(&x), x),
+            Ok(Err(e)) => (Facts::bad(&format!("to_xml returned Err: {e}")), String::new()),
+            Err(p) => (Facts::bad(&format!("to_xml panicked: {p}")), String::new()),
+        };
+        let stable = same_text("xml", &text);
+        if !same_facts(&facts, &exp) || facts.nodes != exp.nodes || !stable {
+            let mut e = facts.to_json();
+            e["op"] = json!("xml");
+            e["stable"] = json!(stable);
+            witness("xml", e, w, path, o, sum, wfile, tid);
+        }
+    }
+    if has("dot") {
+        *sum.observer_checks.entry("dot".into()).or_default() += 1;
+        let (facts, text) = match w.g(0).to_dot() {
+            Ok(x) => (parse_dot(&x), x),
+            Err(p) => (Facts::bad(&format!("to_dot panicked: {p}")), String::new()),
+        };
+        let stable = same_text("dot", &text);
+        if !same_facts(&facts, &exp) || !stable {
+            let mut e = facts.to_json();
+            e["op"] = json!("dot");
+            e["stable"] = json!(stable);
+            witness("dot", e, w, path, o, sum, wfile, tid);
+        }
+    }
+    if has("debug") {
+        for (kind, text) in [("debug", w.g(0).debug()), ("display", w.g(0).display())] {
+            *sum.observer_checks.entry(kind.into()).or_default() += 1;
+            let facts = match text {
+                Ok(x) => parse_debug(&x),
+                Err(p) => Facts::bad(&format!("{kind} panicked: {p}")),
+            };
+            if !same_facts(&facts, &exp) {
+                let mut e = facts.to_json();
+                e["op"] = json!(kind);
+                e["stable"] = json!(true);
+                witness(kind, e, w, path, o, sum, wfile, tid);
+            }
+        }
+        for v in &s.present {
+            *sum.observer_checks.entry("v_print".into()).or_default() += 1;
+            let r = w.g(0).v_print(*v);
+            let parsed = match &r {
+                Ok(Ok(t)) => parse_vprint(t, *v),
+                _ => None,
+            };
+            let want_marker = s.val[*v].is_some();
+            let mut want_labels: Vec<String> = s.edges[*v].iter().map(|(a, _)| a.clone()).collect();
+            want_labels.sort();
+            let good = match &parsed {
+                Some((m, ls)) => {
+                    let mut ls = ls.clone();
+                    ls.sort();
+                    *m == want_marker && ls == want_labels
+                }
+                None => false,
+            };
+            if !good {
+                let e = match parsed {
+                    Some((m, ls)) => json!({"op": "vprint", "v": v, "marker": m, "labels": ls, "wellformed": true}),
+                    None => json!({"op": "vprint", "v": v, "marker": false, "labels": [], "wellformed": false}),
+                };
+                witness("v_print", e, w, path, o, sum, wfile, tid);
+            }
+        }
+    }
+}
+
+/// inspect(v): the expected edge set comes from the specification (SodgX.Inspect)
+pub fn inspect_event(w: &World, ev: &SpecEv, path: &[HCall], o: &Opts, sum: &mut Summary, wfile: &mut Option<File>, tid: &mut usize, tk: &crate::model::Tokens) {
+    let v = ev.raw["v"].as_u64().unwrap() as usize;
+    *sum.observer_checks.entry("inspect".into()).or_default() += 1;
+    progress(o, &format!("inspect({v})"), path);
+    let r = w.g(0).inspect(v);
+    let parsed = match &r {
+        Ok(Ok(t)) => parse_inspect(t, v),
+        _ => None,
+    };
+    let mut want: Vec<(usize, String, usize)> = ev
+        .ret
+        .as_array()
+        .unwrap()
+        .iter()
+        .map(|e| (e[0].as_u64().unwrap() as usize, tk.label(e[1].as_str().unwrap()), e[2].as_u64().unwrap() as usize))
+        .collect();
+    want.sort();
+    let good = match &parsed {
+        Some(es) => {
+            let mut es = es.clone();
+            es.sort();
+            es == want
+        }
+        None => false,
+    };
+    if !good {
+        let e = match parsed {
+            Some(es) => json!({"op": "inspect", "v": v, "edges": es.iter().map(|(u, a, t)| json!([u, a, t])).collect::<Vec<_>>(), "wellformed": true}),
+            None => json!({"op": "inspect", "v": v, "edges": [], "wellformed": false}),
+        };
+        witness("inspect", e, w, path, o, sum, wfile, tid);
+    }
 }
